@@ -1426,11 +1426,13 @@ func (a *Agent) createRelayCandidate(ctx context.Context, ep relayEndpoint, ip n
 }
 
 func (a *Agent) addRelayCandidates(ctx context.Context, ep relayEndpoint) {
-	if ep.conn == nil || ep.address == nil {
-		return
+	var (
+		addresses []net.IP
+		ok        bool
+	)
+	if ep.conn != nil && ep.address != nil {
+		addresses, ok = a.resolveRelayAddresses(ep)
 	}
-
-	addresses, ok := a.resolveRelayAddresses(ep)
 	if !ok {
 		// No candidate will own the allocation: release it, the TURN client and the local socket.
 		if ep.closeConn != nil {
